@@ -65,3 +65,61 @@ def ref_parse_carbon(path):
       return None
     pairs.append((k, v))
   return metric, pairs
+
+
+def ref_parse_openmetrics(path):
+  """Reference reading of an OpenMetrics-shaped path metric{k="v",k="v"}: (metric, [(k, v)...]), None when a label is
+  structurally broken or violates the tag rules, 'unspec' where the documentation leaves the reading open (escapes other
+  than \\" and \\\\, a trailing comma, a metric part containing ';' or a second '{').  The grammar is deterministic: a key
+  runs up to the first '=', the value is a double-quoted string, labels are separated by single commas."""
+  body = path[:-1]
+  metric, brace, raw = body.partition('{')
+  if not brace:
+    return 'unspec'
+  if '{' in raw or ';' in metric:
+    return 'unspec'
+  if not metric or not metric.lstrip('~'):
+    return None
+  pairs = []
+  pos = 0
+  n = len(raw)
+  if n == 0:
+    return 'unspec'
+  while pos < n:
+    eq = raw.find('=', pos)
+    if eq < 0:
+      return None                       # a label without '='
+    k = raw[pos:eq]
+    if eq + 1 >= n or raw[eq + 1] != '"':
+      return None                       # unquoted value
+    i = eq + 2
+    v = []
+    closed = False
+    while i < n:
+      c = raw[i]
+      if c == '\\':
+        if i + 1 < n and raw[i + 1] in '"\\':
+          v.append(raw[i + 1])
+          i += 2
+          continue
+        return 'unspec'                  # another escape, or a dangling backslash
+      if c == '"':
+        closed = True
+        i += 1
+        break
+      v.append(c)
+      i += 1
+    if not closed:
+      return None
+    v = ''.join(v)
+    if not valid_tag(k, v):
+      return None
+    pairs.append((k, v))
+    if i < n:
+      if raw[i] != ',':
+        return None                     # junk between the closing quote and the next label
+      i += 1
+      if i == n:
+        return 'unspec'                  # trailing comma
+    pos = i
+  return metric, pairs
